@@ -34,6 +34,9 @@ FAMILIES = [
      P.notes_to_abs([(0, 40, 0, 36, 90)], [])],
     # 2/2 and 12/8
     [P.notes_to_abs([(0, 55, 10, 34, 80), (0, 57, 90, 126, 70), (0, 59, 200, 218, 60)], [P.ts(0, 2, 2), P.ts(96, 12, 8)], dur=250)],
+    # a note that is never released (a truncated recording) in the second bar, next to a closed one
+    [P.notes_to_abs([(0, 60, 0, 24, 80), (0, 62, 100, 112, 70)], [P.ts(0, 4, 4)]) + [P.on(108, 0, 64, 70)],
+     P.notes_to_abs([(0, 48, 12, 36, 80)], [])],
 ]
 OTHER = P.notes_to_abs([(0, 40, 4, 16, 64)], [])
 
@@ -166,6 +169,32 @@ def apply(world, op, tokinfo):
             if t not in tok.dictionary:
                 tokinfo["inVocab"] = False
         return tok.detokenise(tokens)
+    elif op == "load_coarse_file":
+        # a file coarser than the library resolution (12 ticks per quarter): every file tick is two library ticks
+        import mido
+        path = tmpfile()
+        try:
+            mf = mido.MidiFile(ticks_per_beat=12)
+            for s in world:
+                tr, last = mido.MidiTrack(), 0
+                for m in P.raw_abs(s):
+                    T = m["t"] // 2
+                    if m["ty"] == "on":
+                        tr.append(mido.Message("note_on", note=m["p"], velocity=max(1, m["v"]), channel=m["ch"], time=T - last))
+                    elif m["ty"] == "off":
+                        tr.append(mido.Message("note_off", note=m["p"], velocity=0, channel=m["ch"], time=T - last))
+                    elif m["ty"] == "ts":
+                        tr.append(mido.MetaMessage("time_signature", numerator=m["n"], denominator=m["d"], time=T - last))
+                    elif m["ty"] == "pc":
+                        tr.append(mido.Message("program_change", program=m["p"], channel=m["ch"], time=T - last))
+                    else:
+                        continue
+                    last = T
+                mf.tracks.append(tr)
+            mf.save(path)
+            return Sequence.sequences_load(file_path=path)
+        finally:
+            os.unlink(path)
     elif op == "save_load":
         path = tmpfile()
         try:
